@@ -124,7 +124,11 @@ where
                 };
                 (lower, upper)
             }
-            _ => (0, Some(0)),
+            // upstream is exhausted, but the futures still in flight will each yield an item
+            _ => {
+                let queue_len = self.in_progress_queue.len();
+                (queue_len, Some(queue_len))
+            }
         }
     }
 }
@@ -192,7 +196,11 @@ where
                 };
                 (lower, upper)
             }
-            _ => (0, Some(0)),
+            // upstream is exhausted, but the futures still in flight will each yield an item
+            _ => {
+                let queue_len = self.in_progress_queue.len();
+                (queue_len, Some(queue_len))
+            }
         }
     }
 }
